@@ -151,6 +151,70 @@ theorem mul_needs_pyint (x y : Fmt) (F : Int) (h : _root_.Fxp.mulNeedsPyInt x y 
   unfold Gen.mulNeedsPyInt
   cases hx : x.signed <;> cases hy : y.signed <;> simp_all <;> omega
 
+/-! ### the exact scale-down route (a result landing in a format with fewer fraction bits than the exact result has)
+
+The source scales the exact integer result down either as an exact rational (`_scale_down_exact`, rounded exactly by
+`_round`) or by the float `2^-k`.  The float route is harmless exactly when the integer it scales is one a double holds
+(`|p| ≤ 2^53`; a multiplication by a power of two is then exact and `_round` sees the exact value).  These obligations say that
+whenever the source's own test sends a bit-dropping operation down the float route, every pair of in-range operand codes
+gives such an integer — so C03's register statements (`C03.register_drop`) and C08's imposed formats hold on both routes. -/
+
+theorem abs_le_pow_of_inRange (x : Fmt) (a : Int) (ha : x.InRange a) : |a| ≤ 2 ^ x.nword := by
+  unfold Fmt.InRange Fmt.lo Fmt.hi at ha
+  have h1 : (2:Int) ^ (x.nword - 1) ≤ 2 ^ x.nword := pow_le_pow_right₀ (by norm_num) (Nat.sub_le _ _)
+  have h0 : (0:Int) < 2 ^ x.nword := by positivity
+  cases hs : x.signed <;> simp [hs] at ha <;> rw [abs_le] <;> constructor <;> omega
+
+/-- mul: the float route is taken with dropped bits only when the exact product of in-range codes is at most `2^53`. -/
+theorem mul_exact_path (x y : Fmt) (F : Int) (hF : F < x.nfrac + y.nfrac)
+    (h : Gen.mulExactPath x.signed x.nword x.nint x.nfrac y.signed y.nword y.nint y.nfrac F = false)
+    (a b : Int) (ha : x.InRange a) (hb : y.InRange b) : |a * b| ≤ 2 ^ 53 := by
+  unfold Gen.mulExactPath at h
+  have hw : x.nword + y.nword ≤ 53 := by
+    simp only [Bool.and_eq_false_iff, decide_eq_false_iff_not] at h
+    rcases h with h | h <;> omega
+  have h1 := abs_le_pow_of_inRange x a ha
+  have h2 := abs_le_pow_of_inRange y b hb
+  calc |a * b| = |a| * |b| := abs_mul a b
+    _ ≤ 2 ^ x.nword * 2 ^ y.nword := mul_le_mul h1 h2 (abs_nonneg b) (by positivity)
+    _ = 2 ^ (x.nword + y.nword) := by rw [pow_add]
+    _ ≤ 2 ^ 53 := pow_le_pow_right₀ (by norm_num) hw
+
+/-- aligned operand of a sum / difference: the code shifted to the finer of the two fraction lengths. -/
+theorem aligned_le (x : Fmt) (a : Int) (ha : x.InRange a) (e : Nat) (hb : (x.nword : Int) + e ≤ 52) : |a * 2 ^ e| ≤ 2 ^ 52 := by
+  have h1 := abs_le_pow_of_inRange x a ha
+  have : |a * 2 ^ e| = |a| * 2 ^ e := by rw [abs_mul, abs_of_pos (by positivity : (0:Int) < 2 ^ e)]
+  rw [this]
+  calc |a| * 2 ^ e ≤ 2 ^ x.nword * 2 ^ e := mul_le_mul_of_nonneg_right h1 (by positivity)
+    _ = 2 ^ (x.nword + e) := by rw [pow_add]
+    _ ≤ 2 ^ 52 := pow_le_pow_right₀ (by norm_num) (by omega)
+
+/-- add: the float route is taken with dropped bits only when the exact aligned sum of in-range codes is at most `2^53`. -/
+theorem add_exact_path (x y : Fmt) (F : Int) (hF : F < max x.nfrac y.nfrac)
+    (h : Gen.addExactPath x.signed x.nword x.nint x.nfrac y.signed y.nword y.nint y.nfrac F = false)
+    (a b : Int) (ha : x.InRange a) (hb : y.InRange b) :
+    |a * 2 ^ (max x.nfrac y.nfrac - x.nfrac).toNat + b * 2 ^ (max x.nfrac y.nfrac - y.nfrac).toNat| ≤ 2 ^ 53 := by
+  unfold Gen.addExactPath at h
+  simp only [Bool.and_eq_false_iff, decide_eq_false_iff_not] at h
+  have hx := aligned_le x a ha (max x.nfrac y.nfrac - x.nfrac).toNat (by rcases h with h | h <;> omega)
+  have hy := aligned_le y b hb (max x.nfrac y.nfrac - y.nfrac).toNat (by rcases h with h | h <;> omega)
+  have := abs_add_le (a * 2 ^ (max x.nfrac y.nfrac - x.nfrac).toNat) (b * 2 ^ (max x.nfrac y.nfrac - y.nfrac).toNat)
+  have e : (2:Int) ^ 53 = 2 ^ 52 + 2 ^ 52 := by norm_num
+  omega
+
+/-- sub: likewise for the exact aligned difference. -/
+theorem sub_exact_path (x y : Fmt) (F : Int) (hF : F < max x.nfrac y.nfrac)
+    (h : Gen.subExactPath x.signed x.nword x.nint x.nfrac y.signed y.nword y.nint y.nfrac F = false)
+    (a b : Int) (ha : x.InRange a) (hb : y.InRange b) :
+    |a * 2 ^ (max x.nfrac y.nfrac - x.nfrac).toNat - b * 2 ^ (max x.nfrac y.nfrac - y.nfrac).toNat| ≤ 2 ^ 53 := by
+  unfold Gen.subExactPath at h
+  simp only [Bool.and_eq_false_iff, decide_eq_false_iff_not] at h
+  have hx := aligned_le x a ha (max x.nfrac y.nfrac - x.nfrac).toNat (by rcases h with h | h <;> omega)
+  have hy := aligned_le y b hb (max x.nfrac y.nfrac - y.nfrac).toNat (by rcases h with h | h <;> omega)
+  have := abs_sub (a * 2 ^ (max x.nfrac y.nfrac - x.nfrac).toNat) (b * 2 ^ (max x.nfrac y.nfrac - y.nfrac).toNat)
+  have e : (2:Int) ^ 53 = 2 ^ 52 + 2 ^ 52 := by norm_num
+  omega
+
 /-! ## Rules of `fxpmath/objects.py` -/
 
 theorem toNat_pred (n : Nat) : ((n : Int) - 1).toNat = n - 1 := by omega
